@@ -14,9 +14,9 @@ if [ -n "$FILES" ]; then
   STILL=$(grep '^FAILED' $B | grep -v test_socket_guard | tr '\n' ' ')
   EXTRA=" | serial re-run of [$FILES]: $(tail -1 $B) ; non-guard failures after re-run: [${STILL:-none}]"
 fi
-for try in 1 2 3 4; do
-  # the CLI tests time out when the machine is busy: wait (up to 15 min) for the 1-minute load average to drop below 8
-  for w in $(seq 1 90); do L=$(cut -d' ' -f1 /proc/loadavg | cut -d. -f1); [ "$L" -lt 8 ] && break; sleep 10; done
+for try in 1 2; do
+  # the CLI tests time out when the machine is busy: wait (up to 3 min) for the 1-minute load average to drop below 8
+  for w in $(seq 1 18); do L=$(cut -d' ' -f1 /proc/loadavg | cut -d. -f1); [ "$L" -lt 8 ] && break; sleep 10; done
   PYTHONPATH=$D /venv/bin/python -m pytest -q -p no:cacheprovider -p no:rerunfailures --timeout=900 test_multiwallet.py test_singlesweep.py 2>&1 | tail -2 > $B
   grep -q "failed" $B || break
   sleep 20
